@@ -206,6 +206,32 @@ def grep_forbidden(modules):
     return hits
 
 
+def theorems_of(modules):
+    """property theorems = every `theorem` of the given Props modules (qualified by namespace)"""
+    out = []
+    for m in modules:
+        path = os.path.join(LEAN, *m.split(".")) + ".lean"
+        try:
+            txt = open(path).read()
+        except OSError:
+            continue
+        txt = re.sub(r"/-.*?-/", "", txt, flags=re.S)
+        ns = []
+        for l in txt.split("\n"):
+            mm = re.match(r"^namespace\s+(\S+)", l)
+            if mm:
+                ns.append(mm.group(1))
+                continue
+            mm = re.match(r"^end\s+(\S+)", l)
+            if mm and ns and ns[-1] == mm.group(1):
+                ns.pop()
+                continue
+            mm = re.match(r"^(?:@\[[^\]]*\]\s*)?theorem\s+([\w\.']+)", l)
+            if mm:
+                out.append(".".join(ns + [mm.group(1)]))
+    return out
+
+
 def lean_sources():
     return sorted(glob.glob(os.path.join(LEAN, "H3Model", "**", "*.lean"), recursive=True) +
                   glob.glob(os.path.join(LEAN, "H3Proofs", "**", "*.lean"), recursive=True) +
@@ -324,9 +350,13 @@ def run_property(pid, tier, seed):
         lake_build(prep, targets)
         if prep.translator_error:
             broken.append({"kind": "translator", "name": "c2lean/dump_tables", "detail": prep.translator_error})
-        obligations = list(mod.THEOREMS)
+        if mod.THEOREMS == "auto":
+            obligations = theorems_of(mod.MODULES)
+        else:
+            obligations = list(mod.THEOREMS)
         if tier == "thorough":
-            obligations += list(getattr(mod, "THEOREMS_THOROUGH", []))
+            thm_t = getattr(mod, "THEOREMS_THOROUGH", [])
+            obligations += theorems_of(getattr(mod, "MODULES_THOROUGH", [])) if thm_t == "auto" else list(thm_t)
         discharged = []
         theorem_axioms = {}
         mods_ok = [m for m in targets[1:] if prep.lake_ok.get(m)]
@@ -346,8 +376,9 @@ def run_property(pid, tier, seed):
                     ax = res[t]
                     bad = [a for a in ax if a not in ALLOWED_AXIOMS and not re.search(r"\._native\.bv_decide\.ax_", a)]
                     bvd = [a for a in ax if re.search(r"\._native\.bv_decide\.ax_", a)]
-                    allow_bvd = t in getattr(mod, "BV_DECIDE_THEOREMS", [])
-                    if bad or (bvd and not allow_bvd):
+                    # bv_decide's per-theorem LRAT-checker axioms are accepted (DESIGN §2.6) and listed
+                    # by name in the evidence; anything else outside the three standard axioms is not
+                    if bad:
                         broken.append({"kind": "axiom-audit", "name": t, "detail": f"axioms {ax}"})
                     else:
                         discharged.append(t)
